@@ -111,7 +111,7 @@ def final_template(f):
 def class_name(c):
     return {"\\": "backslash", '"': "double-quote", " ": "space", "\t": "tab", "\n": "newline", "\r": "carriage-return",
             "x": "other-ascii", "é": "non-ascii", "0": "digit", "": "empty-string", "\x0b": "vertical-tab", "\x0c": "form-feed",
-            "\u0085": "next-line-U+0085", "\u00a0": "no-break-space-U+00A0", "\u3000": "ideographic-space-U+3000"}.get(c, "letter-" + c if len(c) == 1 else c)
+            "\x00": "NUL", "\u0085": "next-line-U+0085", "\u00a0": "no-break-space-U+00A0", "\u3000": "ideographic-space-U+3000"}.get(c, "letter-" + c if len(c) == 1 else c)
 
 
 def report_roundtrip(rep, rule, label, tab, rows, where, fn_path, record_sep=None):
@@ -126,7 +126,7 @@ def report_roundtrip(rep, rule, label, tab, rows, where, fn_path, record_sep=Non
     for s in by_class:
         if len(s) == 2 and not (s[0] in singles or s[1] in singles):
             reported[s] = by_class[s]
-    classes = [""] + list(tab.classes)
+    classes = [""] + list(tab.classes) + ([record_sep] if record_sep is not None and record_sep not in tab.classes else [])
     for c in classes:
         if c in reported:
             text, res = reported[c]
